@@ -50,6 +50,9 @@ def gen_script(W, method):
     s["exc_before_head"] = W.chance(0.06)
     # storage fault: a seekable file loses its tail after the server has measured it
     s["file_shrinks"] = W.choice([0, 1, 300], p0=0.85)
+    # a plain list (it has a len(): the server infers a Content-Length for a one-element result) instead of an
+    # iterable object with close()
+    s["plain_list"] = W.chance(0.35)
     return s
 
 
@@ -103,6 +106,7 @@ def make_script(i, s, method):
         s = dict(s)
         s["kind"] = "write"
     script = {"status": s["status"], "headers": hdrs, "cl": cl, "chunks": chunks, "kind": s["kind"], "cl_name": s.get("cl_name", "Content-Length"),
+              "has_close": not (s.get("plain_list") and s["kind"] == "list"),
               "sr_late": s["sr_late"] and s["kind"] in ("gen", "list"), "block_size": s["block_size"]}
     if s["exc_after_head"] and s["kind"] in ("gen", "list") and len(chunks) >= 2 and chunks[0]:
         script["raise_at"] = (("next", 1), AppExc)
@@ -264,6 +268,8 @@ def run_one(tapes, tier, scenario=None):
                 v("body", p, "truncated body on the wire is not a prefix of the application's bytes", disc="truncated:not_prefix")
             elif may_be_short and not failing and len(r.body) != len(produced):
                 v("body", p, "short response carries %d bytes, the application produced %d" % (len(r.body), len(produced)), disc="short:body")
+        if r.get("Transfer-Encoding") is not None and r.get("Content-Length") is not None:
+            v("framing", p, "response carries both Content-Length (%r) and Transfer-Encoding" % (r.get("Content-Length"),), disc="both_cl_and_te")
         if status == 204 and r.get("Transfer-Encoding") is not None:
             v("framing", p, "Transfer-Encoding on a 204 response", disc="te_on_204")
         if status == 204 and r.get("Content-Length") is not None:
